@@ -779,6 +779,10 @@ class Executor:
                 return And(*[self.equal(x, y, st) for x, y in zip(la, lb)])
         if isinstance(a, SymRef) and isinstance(b, SymRef):
             return a.t == b.t
+        for x, y in ((a, b), (b, a)):
+            # an object allocated by the code under analysis is never a pre-existing module-level object
+            if isinstance(x, Ref) and isinstance(y, Opaque) and y.tag.startswith("live:"):
+                return FALSE
         if isinstance(a, Opaque) or isinstance(b, Opaque):
             return fresh_bool("eq.opaque")
         if type(a) is not type(b):
